@@ -5,6 +5,7 @@ cd "$(dirname "$0")/.."
 export CARGO_NET_OFFLINE=true
 mkdir -p work evidence replays
 python3 tools/extract_consts.py
+python3 tools/rs2v.py
 ( cd coq && coq_makefile -f _CoqProject -o Makefile >/dev/null && timeout 3000 make -j16 2>&1 | grep -v '^COQ' | tail -20 )
 ( cd ocaml && ocamlfind ocamlopt -O3 -w -a -o driver model.mli model.ml driver.ml )
 ( cd harness && RUSTFLAGS="--cfg fpdec_verif" cargo build --offline 2>&1 | tail -2 )
